@@ -176,6 +176,16 @@ func mutate(doc M, pos []string, shape string) (M, bool) {
 	return d, true
 }
 
+// safeMutate applies a second mutation; the first may have removed the container it addresses.
+func safeMutate(doc M, pos []string, shape string) (d M, ok bool) {
+	defer func() {
+		if recover() != nil {
+			d, ok = nil, false
+		}
+	}()
+	return mutate(doc, pos, shape)
+}
+
 func serialise(doc M, format string) ([]byte, bool) {
 	switch format {
 	case "yaml":
@@ -272,23 +282,28 @@ func CheckC15(env *core.Env, rep *core.Report) *core.Result {
 	}
 	rng := env.Rand("shapes")
 	type job struct {
-		c      shpCase
-		format string
+		c        shpCase
+		format   string
+		noImport bool // the base document without its import (the raw tree is decoded unmerged)
 	}
 	var jobs []job
 	for _, c := range cases {
 		if c.Kind != "doc" {
 			continue
 		}
-		jobs = append(jobs, job{c, "yaml"})
-		if strings.HasSuffix(c.Shape, "key") && c.Shape != "unknownkey" {
+		jobs = append(jobs, job{c: c, format: "yaml"})
+		isKey := strings.HasSuffix(c.Shape, "key") && c.Shape != "unknownkey"
+		if (isKey || thorough || rng.Intn(4) == 0) && !(len(c.Pos) == 2 && c.Pos[0] == "top" && strings.HasPrefix(c.Pos[1], "import")) {
+			jobs = append(jobs, job{c: c, format: "yaml", noImport: true})
+		}
+		if isKey {
 			continue
 		}
 		if thorough || rng.Intn(3) == 0 {
-			jobs = append(jobs, job{c, "json"})
+			jobs = append(jobs, job{c: c, format: "json"})
 		}
 		if thorough || rng.Intn(3) == 0 {
-			jobs = append(jobs, job{c, "toml"})
+			jobs = append(jobs, job{c: c, format: "toml"})
 		}
 	}
 	core.Parallel(len(jobs), 16, func(i int) {
@@ -298,6 +313,9 @@ func CheckC15(env *core.Env, rep *core.Report) *core.Result {
 		_ = ioutil.WriteFile(envf, []byte("K=v\n"), 0o644)
 		_ = ioutil.WriteFile(filepath.Join(d, "inc.yaml"), []byte("tasks:\n  included:\n    command: [\"true\"]\n    env:\n      IK: iv\n"), 0o644)
 		base := baseDoc(envf)
+		if j.noImport {
+			delete(base, "import")
+		}
 		var data []byte
 		if j.c.Shape == "duplicated" {
 			// duplicate key on the text level: top-level sections, YAML only
@@ -324,11 +342,17 @@ func CheckC15(env *core.Env, rep *core.Report) *core.Result {
 		f := filepath.Join(d, "cfg."+j.format)
 		_ = ioutil.WriteFile(f, data, 0o644)
 		what := fmt.Sprintf("%s at %s, %s", j.c.Shape, strings.Join(j.c.Pos, "."), j.format)
+		if j.noImport {
+			what += ", no import"
+		}
 		distinct.Add(what)
 		for _, args := range cmdsFor(f) {
 			res := e.run(d, "", 8*time.Second, args...)
 			detail := map[string]interface{}{"position": j.c.Pos, "shape": j.c.Shape, "format": j.format, "args": args[2:], "document": clipS(string(data), 3000), "stderr": tailS(res.Stderr, 1200)}
 			key := fmt.Sprintf("%s:%s:%s", j.format, strings.Join(j.c.Pos, "."), j.c.Shape)
+			if j.noImport {
+				key += ":noimport"
+			}
 			if !judge(key, res, what+" ("+strings.Join(args[2:], " ")+")", detail) {
 				break
 			}
@@ -340,6 +364,51 @@ func CheckC15(env *core.Env, rep *core.Report) *core.Result {
 			e.samples.Add(map[string]interface{}{"kind": "shape", "position": j.c.Pos, "shape": j.c.Shape, "format": j.format})
 		}
 	})
+
+	// pairs of mutations (thorough): two positions mutated in one document
+	if thorough {
+		var docCases []shpCase
+		for _, c := range cases {
+			if c.Kind == "doc" && c.Shape != "duplicated" {
+				docCases = append(docCases, c)
+			}
+		}
+		prng := env.Rand("shape-pairs")
+		type pair struct{ a, b shpCase }
+		var pairs []pair
+		for k := 0; k < 2500; k++ {
+			pairs = append(pairs, pair{docCases[prng.Intn(len(docCases))], docCases[prng.Intn(len(docCases))]})
+		}
+		core.Parallel(len(pairs), 16, func(i int) {
+			pr := pairs[i]
+			d := env.Sub("shp2")
+			envf := filepath.Join(d, "x.env")
+			_ = ioutil.WriteFile(envf, []byte("K=v\n"), 0o644)
+			_ = ioutil.WriteFile(filepath.Join(d, "inc.yaml"), []byte("tasks:\n  included:\n    command: [\"true\"]\n"), 0o644)
+			doc, ok := mutate(baseDoc(envf), pr.a.Pos, pr.a.Shape)
+			if !ok {
+				return
+			}
+			doc2, ok := safeMutate(doc, pr.b.Pos, pr.b.Shape)
+			if !ok {
+				return
+			}
+			data, ok := serialise(doc2, "yaml")
+			if !ok {
+				return
+			}
+			f := filepath.Join(d, "cfg.yaml")
+			_ = ioutil.WriteFile(f, data, 0o644)
+			what := fmt.Sprintf("%s at %s and %s at %s, yaml", pr.a.Shape, strings.Join(pr.a.Pos, "."), pr.b.Shape, strings.Join(pr.b.Pos, "."))
+			for _, args := range cmdsFor(f) {
+				res := e.run(d, "", 8*time.Second, args...)
+				if !judge("yaml:pair:"+strings.Join(pr.a.Pos, ".")+":"+pr.a.Shape+"+"+strings.Join(pr.b.Pos, ".")+":"+pr.b.Shape, res, what, map[string]interface{}{"document": clipS(string(data), 3000), "stderr": tailS(res.Stderr, 1200)}) {
+					break
+				}
+			}
+			distinct.Add(what)
+		})
+	}
 
 	// env_file line sequences
 	var ef []shpCase
